@@ -19,9 +19,11 @@ PROPS = {
                       "below it), FortranSyntaxError construction cannot raise IndexError under the line bookkeeping invariant, reader "
                       "diagnostics must not end the process (known finding: reader.error exits)",
                 trusted=TRUSTED + "; [A] the parse below Program raises only fparser exceptions",
-                explanation="[P] F1, U1, R17; whole-parser escape freedom only for functions under contract",
-                enum=[("enum_frame.py", ["frame.exits", "frame.decode"])],
-                witnesses=["c06_end_name_mismatch_exits", "c06_dangling_construct_name_exits"]),
+                explanation="[P] F1, U1, R17, R10 (next); [B] token-mutation corpus (bounded_garbage.py); whole-parser escape freedom only for functions under contract",
+                enum=[("enum_frame.py", ["frame.exits", "frame.decode"]), "bounded_garbage.py"],
+                witnesses=["c06_end_name_mismatch_exits", "c06_dangling_construct_name_exits", "c06_kind_selector_too_short",
+                           "c06_use_only_dtio_generic_spec", "c06_hollerith_length_with_blank", "c06_component_decl_assertion",
+                           "c06_deallocate_assertion", "c06_array_constructor_empty_item"]),
     "C09": dict(level="other",
                 claim="on every normal and exceptional exit of the only two functions that open scopes (BlockBase.match, "
                       "Main_Program0.match) the scope stack is as at entry and no symbol table of the failed parse remains; symbol-table "
